@@ -211,7 +211,20 @@ class Program:
         return ('inherent', base(h))
 
     def _index(self):
+        self.const_by_key = {}
         for name, f in self.items.items():
+            if f.kind == 'const':
+                # associated constants of impl blocks: `mod::<impl at file:l:c>::NAME`, referred to as `mod::Type::<..>::NAME`
+                m = re.match(r'(.*?)<(impl at [^>]*)>::(\w+)$', name)
+                if m:
+                    try:
+                        k = self._impl_key(m.group(2))
+                    except Exception:
+                        continue
+                    tyname = k[1] if k[0] == 'inherent' else (k[2] if k[0] == 'trait' else None)
+                    if tyname:
+                        self.const_by_key.setdefault('%s::%s' % (tyname.lstrip('&'), m.group(3)), f)
+                continue
             if f.kind != 'fn':
                 continue
             if f.closure_ty:
@@ -270,6 +283,10 @@ class Program:
             cand = '::'.join(segs[k:])
             if cand in self.items and self.items[cand].kind == 'const':
                 return self.items[cand]
+        if len(segs) >= 2:
+            cand = '%s::%s' % (re.sub(r'<.*$', '', segs[-2]), segs[-1])
+            if cand in getattr(self, 'const_by_key', {}):
+                return self.const_by_key[cand]
         raise KeyError('const ' + opname)
 
 
